@@ -26,9 +26,38 @@ type vecRecv struct {
 }
 
 type matRecv struct {
-	R   int    `json:"r"`
-	C   int    `json:"c"`
-	Out string `json:"out"`
+	R    int    `json:"r"`
+	C    int    `json:"c"`
+	Out  string `json:"out"`
+	View bool   `json:"-"` // added by the harness: the same row with a window of a larger matrix as destination
+}
+
+// withViews repeats every accepted pre-sized destination of the specification's decision table as
+// a window of a larger junk-filled matrix (same dimensions, same expected outcome).
+func withViews(rows []matRecv) []matRecv {
+	out := append([]matRecv(nil), rows...)
+	for _, r := range rows {
+		if r.R > 0 && r.C > 0 && r.Out == "ok" {
+			r.View = true
+			out = append(out, r)
+		}
+	}
+	return out
+}
+
+func (r matRecv) viewNote() string {
+	if r.View {
+		return ", a window of a larger matrix"
+	}
+	return ""
+}
+
+// buildDst returns the destination and the check that nothing outside it was written.
+func (r matRecv) buildDst() (*mat.Dense, func() string) {
+	if r.View {
+		return denseDstView(r.R, r.C)
+	}
+	return r.build(), func() string { return "" }
 }
 
 func dense(rows [][]int64) *mat.Dense {
@@ -147,18 +176,34 @@ type pcaLine struct {
 }
 
 func (c *checker) pca(k *pcaLine) (nontrivial bool) {
+	// The data matrix is an abstract matrix: the whole history is run once per representation
+	// (reps.go); within a history the representation advances with the step, so that a receiver
+	// also meets a different representation of the next data matrix.
+	for r := 0; r < nReps; r++ {
+		if c.pcaHistory(k, r) {
+			nontrivial = true
+		}
+	}
+	return nontrivial
+}
+
+var nReps = len(matReps([][]float64{{0}}, 0))
+
+func (c *checker) pcaHistory(k *pcaLine, r0 int) (nontrivial bool) {
 	var pc gstat.PC // one receiver for the whole history
 	prev := ""
 	for si, st := range k.Steps {
-		sfx := ""
+		rp := matReps(rowsOf(st.X), r0+si+st.N)[(r0+si)%nReps]
+		sfx := repSfx(rp.name)
 		if si > 0 {
 			// the accessors must return the result of the last analysis, whatever the receiver held before
-			sfx = fmt.Sprintf(":reused(prev=%s,now=%s)", prev, st.Wtag)
+			sfx += fmt.Sprintf(":reused(prev=%s,now=%s)", prev, st.Wtag)
 		}
 		prev = st.Wtag
-		x := dense(st.X)
+		x := rp.m
 		w := weights(st.W, st.Nilw)
-		ctx := fmt.Sprintf("step %d [%s] PrincipalComponents(X=%v, weights=%v)", si, st.Tag, st.X, w)
+		ctx := fmt.Sprintf("step %d [%s] PrincipalComponents(X=%v as %s, weights=%v)", si, st.Tag, st.X, rp.name, w)
+		c.sum.Count("matrix_calls:"+rp.name, 1)
 		var ok bool
 		o := core.Call(func() { ok = pc.PrincipalComponents(x, w) })
 		c.sum.Count("values", 1)
@@ -169,6 +214,9 @@ func (c *checker) pca(k *pcaLine) (nontrivial bool) {
 		if !ok {
 			c.fail("stat:PC.PrincipalComponents:not-ok"+sfx, ctx+": returned false")
 			return
+		}
+		if bad := rp.intact(); bad != "" {
+			c.fail("stat:PC.PrincipalComponents:input-modified"+sfx, ctx+": "+bad)
 		}
 		limVar, limVec := prodRat(st.Tolvar), prodRat(st.Tolvec)
 		for _, r := range st.Vrecv {
@@ -193,12 +241,15 @@ func (c *checker) pca(k *pcaLine) (nontrivial bool) {
 				}
 			}
 		}
-		for _, r := range st.Mrecv {
-			dst := r.build()
+		for _, r := range withViews(st.Mrecv) {
+			dst, dstIntact := r.buildDst()
 			o := core.Call(func() { pc.VectorsTo(dst) })
-			rctx := fmt.Sprintf("%s; VectorsTo(%dx%d destination)", ctx, r.R, r.C)
+			rctx := fmt.Sprintf("%s; VectorsTo(%dx%d destination%s)", ctx, r.R, r.C, r.viewNote())
 			if !c.outcome("PC.VectorsTo", sfx, rctx, r.Out, o) {
 				continue
+			}
+			if bad := dstIntact(); bad != "" {
+				c.fail("stat:PC.VectorsTo:wrote-outside-dst"+sfx, rctx+": "+bad)
 			}
 			if gr, gc := dst.Dims(); gr != st.D || gc != st.K {
 				c.fail("stat:PC.VectorsTo:shape"+sfx, fmt.Sprintf("%s: result is %dx%d, specification says %dx%d", rctx, gr, gc, st.D, st.K))
@@ -252,15 +303,33 @@ type ccaLine struct {
 }
 
 func (c *checker) cca(k *ccaLine) (nontrivial bool) {
+	// as pca: one history per representation of x; y runs through the representations at another pace
+	for r := 0; r < nReps; r++ {
+		if c.ccaHistory(k, r) {
+			nontrivial = true
+		}
+	}
+	return nontrivial
+}
+
+func (c *checker) ccaHistory(k *ccaLine, r0 int) (nontrivial bool) {
 	var cc gstat.CC
 	for si, st := range k.Steps {
-		sfx := ""
-		if si > 0 {
-			sfx = ":reused"
+		rx := matReps(rowsOf(st.X), r0+si+st.N)[(r0+si)%nReps]
+		ry := matReps(rowsOf(st.Y), r0+st.P)[(2*r0+si+1)%nReps]
+		sfx, usfx := "", "" // usfx: without the representation (signature of known finding C10-K1)
+		if rx.name != "dense" || ry.name != "dense" {
+			sfx = ":rep=" + rx.name + "," + ry.name
 		}
-		x, y := dense(st.X), dense(st.Y)
+		if si > 0 {
+			sfx += ":reused"
+			usfx = ":reused"
+		}
+		x, y := rx.m, ry.m
 		w := weights(st.W, st.Nilw)
-		ctx := fmt.Sprintf("step %d [%s] CanonicalCorrelations(X=%v, Y=%v, weights=%v)", si, st.Tag, st.X, st.Y, w)
+		ctx := fmt.Sprintf("step %d [%s] CanonicalCorrelations(X=%v as %s, Y=%v as %s, weights=%v)", si, st.Tag, st.X, rx.name, st.Y, ry.name, w)
+		c.sum.Count("matrix_calls:"+rx.name, 1)
+		c.sum.Count("matrix_calls:"+ry.name, 1)
 		var err error
 		o := core.Call(func() { err = cc.CanonicalCorrelations(x, y, w) })
 		c.sum.Count("values", 1)
@@ -271,6 +340,9 @@ func (c *checker) cca(k *ccaLine) (nontrivial bool) {
 		if err != nil {
 			c.fail("stat:CC.CanonicalCorrelations:error"+sfx, ctx+": returned "+err.Error())
 			return
+		}
+		if bad := rx.intact() + ry.intact(); bad != "" {
+			c.fail("stat:CC.CanonicalCorrelations:input-modified"+sfx, ctx+": "+bad)
 		}
 		limCorr, limVec, limBack := prodRat(st.Tolcorr), prodRat(st.Tolvec), prodRat(st.Tolback)
 		for _, r := range st.Crecv {
@@ -297,12 +369,15 @@ func (c *checker) cca(k *ccaLine) (nontrivial bool) {
 		}
 		vectors := func(name string, recv []matRecv, rows int, uniq []bool, sph [][][2]int64, back [][]ev, f func(dst *mat.Dense, sphered bool)) {
 			for _, sphered := range []bool{true, false} {
-				for _, r := range recv {
-					dst := r.build()
+				for _, r := range withViews(recv) {
+					dst, dstIntact := r.buildDst()
 					o := core.Call(func() { f(dst, sphered) })
-					rctx := fmt.Sprintf("%s; %s(%dx%d destination, spheredSpace=%v)", ctx, name, r.R, r.C, sphered)
+					rctx := fmt.Sprintf("%s; %s(%dx%d destination%s, spheredSpace=%v)", ctx, name, r.R, r.C, r.viewNote(), sphered)
 					if !c.outcome("CC."+name, sfx, rctx, r.Out, o) {
 						continue
+					}
+					if bad := dstIntact(); bad != "" {
+						c.fail("stat:CC."+name+":wrote-outside-dst"+sfx, rctx+": "+bad)
 					}
 					if gr, gc := dst.Dims(); gr != rows || gc != st.Q {
 						c.fail("stat:CC."+name+":shape"+sfx, fmt.Sprintf("%s: result is %dx%d, specification says %dx%d", rctx, gr, gc, rows, st.Q))
@@ -322,7 +397,7 @@ func (c *checker) cca(k *ccaLine) (nontrivial bool) {
 						} else if !colMatch(dst, j, nil, back, limBack) {
 							// the signature names the weighting: with weights the back-transformation depends on the
 							// normalisation of the weighted sample covariance (sum(w) - 1 as everywhere in package stat)
-							c.fail("stat:CC."+name+":backtransformed:"+st.Wtag+sfx, fmt.Sprintf("%s: vector %d is %v, specification says +-%s",
+							c.fail("stat:CC."+name+":backtransformed:"+st.Wtag+usfx, fmt.Sprintf("%s: vector %d is %v, specification says +-%s",
 								rctx, j, mat.Col(nil, j, dst), showCol(nil, back, j)))
 						}
 					}
@@ -348,9 +423,17 @@ type margRow struct {
 }
 
 func (c *checker) marg(k *margRow) {
-	x, y := dense(k.X), dense(k.Y)
+	// the contract does not depend on the representation of the data either
+	for r := 0; r < nReps; r++ {
+		c.margRep(k, r)
+	}
+}
+
+func (c *checker) margRep(k *margRow, r int) {
+	rx, ry := matReps(rowsOf(k.X), r)[r], matReps(rowsOf(k.Y), r+1)[(r+2)%nReps]
+	x, y := rx.m, ry.m
 	w := weights(k.W, k.Nilw)
-	ctx := fmt.Sprintf("%s(X=%v, Y=%v, weights=%v, destination %dx%d)", k.F, k.X, k.Y, w, k.Dr, k.Dr)
+	ctx := fmt.Sprintf("%s(X=%v as %s, Y=%v as %s, weights=%v, destination %dx%d)", k.F, k.X, rx.name, k.Y, ry.name, w, k.Dr, k.Dr)
 	var dst *mat.SymDense
 	if k.Dr > 0 {
 		dst = mat.NewSymDense(k.Dr, nil)
@@ -381,7 +464,7 @@ func (c *checker) marg(k *margRow) {
 		c.fail("stat:harness:unknown-function", "unknown marg row "+k.F)
 		return
 	}
-	c.outcome(k.F, "", ctx, k.Out, o)
+	c.outcome(k.F, repSfx(rx.name), ctx, k.Out, o)
 }
 
 // ---- family "maha": Mahalanobis distance for an exact SPD matrix ------------------
@@ -395,30 +478,44 @@ type mahaCase struct {
 }
 
 func (c *checker) maha(k *mahaCase) {
-	n := len(k.S)
-	sym := mat.NewSymDense(n, nil)
-	for i := range k.S {
-		for j := i; j < n; j++ {
-			sym.SetSym(i, j, float64(k.S[i][j]))
+	// x and y are abstract vectors, Sigma an abstract symmetric matrix: every pairing of the vector
+	// representations (reps.go) with, in turn, each representation of Sigma handed to Factorize
+	syms := symReps(rowsOf(k.S))
+	nx := len(vecReps(floats(k.X)))
+	for i := 0; i < nx; i++ {
+		for j := 0; j < nx; j++ {
+			c.mahaRep(k, i, j, syms[(i+2*j)%len(syms)])
 		}
 	}
+}
+
+func (c *checker) mahaRep(k *mahaCase, ix, iy int, sym repSym) {
 	// operand construction: the function takes the Cholesky factorization of the matrix
 	var chol mat.Cholesky
-	if ok := chol.Factorize(sym); !ok {
-		panic(operandError(fmt.Sprintf("mat.Cholesky.Factorize rejected the positive definite matrix %v", k.S)))
+	if ok := chol.Factorize(sym.s); !ok {
+		panic(operandError(fmt.Sprintf("mat.Cholesky.Factorize rejected the positive definite matrix %v (as %s)", k.S, sym.name)))
 	}
-	x, y := mat.NewVecDense(n, floats(k.X)), mat.NewVecDense(n, floats(k.Y))
-	ctx := fmt.Sprintf("Mahalanobis(x=%v, y=%v, chol(%v))", k.X, k.Y, k.S)
+	rx, ry := vecReps(floats(k.X))[ix], vecReps(floats(k.Y))[iy]
+	x, y := rx.v, ry.v
+	sfx := ""
+	if ix != 0 || iy != 0 || sym.name != "symdense" {
+		sfx = ":rep=" + rx.name + "," + ry.name + "," + sym.name
+	}
+	ctx := fmt.Sprintf("Mahalanobis(x=%v as %s, y=%v as %s, chol(%v as %s))", k.X, rx.name, k.Y, ry.name, k.S, sym.name)
+	c.sum.Count("vector_calls:"+rx.name+","+ry.name, 1)
 	c.call("Mahalanobis", func() {
 		got := gstat.Mahalanobis(x, y, &chol)
 		c.sum.Count("values", 1)
+		if bad := rx.intact() + ry.intact(); bad != "" {
+			c.fail("stat:Mahalanobis:input-modified"+sfx, ctx+": "+bad)
+		}
 		lim := prodRat(k.Tol)
 		for _, a := range k.Alts {
 			if want, ok := evRat(a); ok && within(got, want, lim) {
 				return
 			}
 		}
-		c.fail("stat:Mahalanobis:value", fmt.Sprintf("%s: got %.17g, specification says %s", ctx, got, altsString(k.Alts)))
+		c.fail("stat:Mahalanobis:value"+sfx, fmt.Sprintf("%s: got %.17g, specification says %s", ctx, got, altsString(k.Alts)))
 	})
 }
 
